@@ -124,7 +124,7 @@ def box_pipeline(P, R, BI, CI, gb, gi, pg):
                                 break
                         if target is not None and not any(isinstance(x, ast.Raise) and False for x in []):
                             env = {'self': OPQ, 'slice': SLICE}
-                            params = target.params[1:]
+                            params = target.params if target.kind == 'staticmethod' else target.params[1:]
                             for p_, a in zip(params, e.args):
                                 env[p_] = I.expr(a)
                             sub = ordeval.Interp(env, I.hooks, I.check_axes)
@@ -299,5 +299,12 @@ def sindex_writers(P, R):
     ok = any(isinstance(s, ast.Assign) and norm(s.targets[0]) == 'self._sindex' and norm(s.value) == 'None' for s in walk_own(init.node))
     R.check(ok, 'C04.d', init, None, 'every new array starts without an index', 'a new array does not start with _sindex = None', construct='self._sindex = None')
     bs = P.func(MOD, 'GeometryArray.build_sindex')
-    ok = any(isinstance(s, ast.Assign) and norm(s.targets[0]) == 'self._sindex' and 'self.bounds' in norm(s.value) for s in walk_own(bs.node))
-    R.check(ok, 'C04.d', bs, None, 'the index is built from the array\'s own bounds', 'build_sindex does not build from self.bounds', construct='self._sindex = HilbertRtree(self.bounds, ...)')
+    ok = False
+    arg0 = None
+    for s in walk_own(bs.node):
+        if isinstance(s, ast.Assign) and norm(s.targets[0]) == 'self._sindex' and isinstance(s.value, ast.Call) and s.value.args:
+            arg0 = astq.trace(bs, s.value.args[0])
+            ok = isinstance(arg0, ast.AST) and norm(arg0) == 'self.bounds'
+    R.check(ok, 'C04.d', bs, None, 'the index is built from ALL rows of the array\'s own bounds, in array order (row numbers = array positions)',
+            f'build_sindex builds the index from `{norm(arg0) if isinstance(arg0, ast.AST) else arg0}` instead of self.bounds: the row numbers it returns are not positions in the array',
+            construct='self._sindex = HilbertRtree(self.bounds, ...)')
